@@ -153,8 +153,8 @@ namespace Givaro {
         }
         else
         {
-            num = Integer(-n);
-            den = Integer(-d);
+            num = -Integer(n); // -n, -d overflow in int64_t for INT64_MIN
+            den = -Integer(d);
         }
         reduce();
     }
